@@ -303,6 +303,29 @@ def strat():
     return st.tuples(gen.prog(CFG), m).map(lambda x: {'p': x[0], 'm': x[1][0], 'a': x[1][1]})
 
 
+CFG_AB = gen.Cfg(esc=False, odd=0.0, max_ops=1, alphabet='aab', min_text=4, max_text=10, rich=True, ansi_ctor=False, cls_s=0.2)
+CFG_WS = gen.Cfg(esc=False, odd=0.0, max_ops=1, alphabet='a  b\t\n', min_text=4, max_text=10, rich=True, ansi_ctor=False, cls_s=0.2)
+
+
+def strat_split_focus():
+    """texts over two letters: every separator drawn from the text recurs, overlaps itself and also occurs inside pieces"""
+    subarg = st.tuples(st.just('sl'), st.integers(0, 9), st.integers(1, 3)).map(list)
+    cnt = st.sampled_from([-1, -1, 1, 2, 3])
+    m = st.one_of(
+        st.tuples(st.sampled_from(['split', 'rsplit']), st.tuples(subarg, cnt).map(list)),
+        st.tuples(st.sampled_from(['partition', 'rpartition']), st.tuples(subarg).map(list)),
+        st.tuples(st.sampled_from(['removeprefix', 'removesuffix', 'strip', 'lstrip', 'rstrip']), st.tuples(subarg).map(list)),
+        st.tuples(st.just('replace'), st.tuples(subarg, st.sampled_from(['', 'b', 'ab', 'aaa']), cnt, st.sampled_from(['str', 'S', 's']),
+                                                st.just([['red', 0, 1]])).map(list)),
+    )
+    ws = st.tuples(st.sampled_from(['split', 'rsplit']), st.tuples(st.none(), cnt).map(list))
+    return st.one_of(st.tuples(gen.prog(CFG_AB), m).map(lambda x: {'p': x[0], 'm': x[1][0], 'a': x[1][1]}),
+                     st.tuples(gen.prog(CFG_AB), m).map(lambda x: {'p': x[0], 'm': x[1][0], 'a': x[1][1]}),
+                     st.tuples(gen.prog(CFG_WS), ws).map(lambda x: {'p': x[0], 'm': x[1][0], 'a': x[1][1]}))
+
+
 SUBS = [
+    Sub('split_focus', eval_case, strategy=strat_split_focus, quick=700, thorough=12000,
+        rule='two-letter / whitespace texts with position-dependent formatting; separators and patterns are slices of the text'),
     Sub('methods', eval_case, strategy=strat, quick=900, thorough=15000),
 ]
